@@ -13,7 +13,7 @@ import (
 
 func TestC04Acks(t *testing.T) {
 	e := vrun.LoadEnv()
-	meta := vrun.Meta{Property: "C04", Workload: "TestC04Acks", Total: e.Pick(200, 4000),
+	meta := vrun.Meta{Property: "C04", Workload: "TestC04Acks", Total: e.Pick(200, 20000),
 		Rule:        "the C03 generator (1-6 upstreams, 1-8 data ids, pre-registered ids, full/alias forms - the same upstream is sent in full form repeatedly until its alias is acknowledged -, poisoned chunks, all QoS) plus ack flush intervals 1 ms..1 s, reads racing the flush ticker, and Close after a random number of reads with results still pending (1 in 4 cases). Oracle over the broker's ledger: multiset of consumed chunks == multiset of results over all DownstreamChunkAcks (upstream stream id, sequence number), ack ids start at 1 and increase strictly, alias relations functional and injective for upstreams and data ids (pre-registered included), everything first seen in full form announced exactly once, last ack before the close request, final State() equals what was announced. non-trivial = >=10 consumed chunks, >=2 acks and >=1 alias announcement; distinct = scenario tuple x (acks, announcements) counts",
 		Assumptions: []string{"judged at the transport boundary on a connection that stays up: every ack Write succeeds"}}
 	vrun.Loop(t, meta, 0, func(c *vrun.Case) vrun.Result {
